@@ -440,12 +440,13 @@ func (b *BaseSelectQuery) MakeSelectQuery() (*SelectQuery, error) {
 		columns = append(columns, column.Name)
 	}
 
-	options := b.Options
-	if options == nil {
-		options = &SelectOptions{}
+	// The filter goes into a copy: the caller may use its options for other
+	// queries, and a live query builds its statement more than once.
+	options := &SelectOptions{}
+	if b.Options != nil {
+		copied := *b.Options
+		options = &copied
 	}
-	// XXX: This assumes a BaseSelectQuery is only used once, as it modifies the
-	// options struct. That's true for now, but should be cleaned up.
 	if err := options.IncludeFilter(b.Table, b.Filter); err != nil {
 		return nil, err
 	}
